@@ -172,7 +172,9 @@ CHECKS = {
         "* / and + -, every shape inside the groups the documentation leaves open). All 1- and 2-operand expressions over 31 operands x "
         "16 operators, 25k sampled (thorough: all 655k) 3-operand expressions and random 4..6-operand expressions with parentheses are "
         "run through ParseExpressions + Evaluate and through {math:}, {if case=}, <if case=> from exact-size buffers under ASan/UBSan "
-        "(a trap is a crash is a violation); TLC judges every event.",
+        "(a trap is a crash is a violation); TLC judges every event. The precedence walk of TemplateCore::evaluate is transcribed "
+        "(QExprImpl): TLC checks every sequence of <= 4 (thorough 5) of the 16 operators against Admissible and rejects two earlier / "
+        "seeded variants; the oracle demands that the engine's value is the transcription's value on every event (model drift otherwise).",
    note="values outside the exact dyadic domain are unjudged; non-integral operands of ^ are specified as 'no value'; one known "
         "finding (sign of negative base ^ negative even exponent, pinned by EvaluateTest) is classified by the oracle itself.",
    technique="TLA+ expression semantics with all documented parse trees; TLC batch oracle over recorded evaluations; sanitizers for traps",
